@@ -37,6 +37,32 @@ CONFLICT = ("edit_ins", "ckpt", "commit_all", "branch", "switch", "conflict")
 HUNKS = ("burst", "edit_ins", "ckpt", "add_hunk", "add_lines", "commit_staged", "commit_all")
 MIXED = ("edit", "ckpt", "add", "commit_all", "commit_staged", "reset_keep", "stash", "checkout_paths")
 
+def c14_tags(beh):
+    """the core feature vector plus the shape of the checkpoint schedule, which is what C14 quantifies over: for every
+    two checkpoints with no other checkpoint between them - their kinds, whether the same session reported both,
+    whether they name the same files, and whether an edit lies between them (a split agent edit: ai > ai, same
+    session, same files, edit between; a repeated checkpoint: no edit between)"""
+    t = set(core_check.engine.tags_of(beh))
+    prev = None
+    edit_between = False
+    for a in beh:
+        if a["a"] == "Edit":
+            edit_between = True
+        elif a["a"] in ("Ckpt", "CkptRepeat"):
+            cur = (a.get("kind", "rep"), a.get("who", "H"), tuple(sorted(a.get("files") or [])))
+            if prev is not None and a["a"] == "Ckpt":
+                t.add("ck>ck:%s>%s:%s:%s:%s" % (prev[0], cur[0], "same" if prev[1] == cur[1] else "other",
+                                               "samefiles" if prev[2] == cur[2] else "difffiles",
+                                               "edit" if edit_between else "noedit"))
+            if a["a"] == "Ckpt":
+                prev = cur
+            edit_between = False
+        elif a["a"] in ("Commit", "Amend"):
+            prev = None
+            edit_between = False
+    return frozenset(t)
+
+
 PLANS = {
     "C01": {
         "clauses": ["C01_Exact", "C01_OnlyAdded"],
@@ -182,6 +208,7 @@ PLANS = {
     },
     "C14": {
         "clauses": ["C14_Stutter", "C01_Exact", "C02_Carried", "C02_AbortNoop"],
+        "tagger": c14_tags,
         "expect_actions": {"any": ["ReadOnly", "CkptRepeat", "Ckpt", "Commit"]},
         "quick": [
             dict(name="decorated", consts=consts(alphabet=DECORATED, steps=6, commits=2, uid=4, lines=3),
@@ -191,10 +218,20 @@ PLANS = {
                                                                           "commit_all"),
                                                steps=7, commits=3, uid=5, lines=4, sessions=("S1",)),
                  invariants=G_ALL, budget=200, variants=RENDERS[:2], per_tag=1),
+            # one agent edit reported in several consecutive checkpoints of one session ("split"): the model state is
+            # the same as after one checkpoint, so the schedule is recorded in the view (SplitAi in GitAiCore.tla)
+            dict(name="split", consts=consts(alphabet=("edit_ins", "ckpt", "commit_all", "split"), steps=6, commits=2,
+                                             uid=5, lines=5, sessions=("S1",)),
+                 invariants=G_ALL, budget=110, variants=RENDERS[:2], per_tag=2,
+                 require_tag=["ck>ck:ai>ai:same:samefiles:edit"]),
         ],
         "thorough": [
             dict(name="decorated", consts=consts(alphabet=DECORATED, steps=7, commits=2, uid=5, lines=3),
                  invariants=G_ALL, budget=2500, variants=RENDERS, timeout=2400),
+            dict(name="split", consts=consts(alphabet=("edit", "ckpt", "commit_all", "split"), steps=7, commits=2,
+                                             uid=6, lines=5, sessions=("S1", "S2")),
+                 invariants=G_ALL, budget=900, variants=RENDERS, per_tag=2, timeout=2400,
+                 require_tag=["ck>ck:ai>ai:same:samefiles:edit"]),
         ],
     },
 }
